@@ -116,10 +116,10 @@ func HarnessC01_Session() {
 		}
 		maxp := payloadBound()
 		if vTier() == 1 && k == 3 {
-			maxp = 2 // three-message sessions: short payloads
+			maxp = 1 // three-message sessions: one-byte payloads
 		}
 		if vTier() == 1 && k == 2 {
-			maxp = 6
+			maxp = 4
 		}
 		m := genMessageMax(viaNew, maxp)
 		if i > 0 && vTier() == 0 {
